@@ -42,6 +42,7 @@ package kvindex
 //@ func (*KVIndex).AddDocTx
 //@   trusted
 //@   modifies KV.
+//@   ensures nw: kvwrites() == old(kvwrites())
 //@   ensures frame: forall k:Str :: !idxkey(k) ==> ((kvhas(k) <==> old(kvhas(k))) && kvval(k) == old(kvval(k)))
 
 // AddField registers the field and persists its key; only index keys are written.
